@@ -19,9 +19,9 @@ let int_of_nat (x : nat) : int =
   let rec go acc = function O -> acc | S y -> go (acc + 1) y in
   go 0 x
 
-let unhex (s : string) : n list =
+let unhex (s : Stdlib.String.t) : n list =
   let len = String.length s / 2 in
   List.init len (fun i -> n_of_int (int_of_string ("0x" ^ String.sub s (2 * i) 2)))
 
-let hex (l : n list) : string =
+let hex (l : n list) : Stdlib.String.t =
   String.concat "" (List.map (fun b -> Printf.sprintf "%02x" (int_of_n b)) l)
